@@ -58,7 +58,11 @@ def generate(rng, n, tier, stats):
             stats['interp_like_shared'][k] += 1
             cases.append({'ins': [a], 'ops': [['interp_like', others, left, right, rng.random() < 0.3]]})
             continue
-        cases.append({'ins': [a], 'ops': [['interp', pts, kind, r, left, right]]})
+        op = ['interp', pts, kind, r, left, right]
+        if labs == sorted(labs) and rng.random() < 0.5:
+            op.append(True); stats['issorted']['True'] += 1          # issorted=True where applicable: the axis is increasing
+        else: stats['issorted']['None'] += 1
+        cases.append({'ins': [a], 'ops': [op]})
     return cases
 
 def oracle_like(case, res):
@@ -92,7 +96,7 @@ def oracle_like(case, res):
 
 def oracle(case, res):
     if case['ops'][0][0] == 'interp_like': return oracle_like(case, res)
-    a = case['ins'][0]; _, pts, kind, r, left, right = case['ops'][0]
+    a = case['ins'][0]; _, pts, kind, r, left, right = case['ops'][0][:6]
     arr = mk_array(a); obs = arr_json(arr)
     p = a['dims'].index(r) if isinstance(r, str) else r
     if res[0] == 'err': return 'interp_axis raised %s' % res[1]
